@@ -169,85 +169,49 @@ def _to_tuple(ctx):
     f = world.func(MOD, 'convert_version_to_tuple')
     rep.analysed('versionutils.convert_version_to_tuple')
     vs = T('sym', 'version_str')
-    seen = {}
-
-    def hook(interp, name, fv, args, kwargs):
-        if name == 're.sub':
-            seen['args'] = args
-            t = T('call', 're.sub', *[interp.termify(a) for a in args])
-            interp.types[t] = 'str'
-            return t
-        return NotImplemented
 
     def thunk(interp):
         return interp.call(f, [vs])
 
     def setup(interp):
-        interp.on_call = hook
         interp.types[vs] = 'str'
-    outcomes, _i = extract(world, thunk, setup=setup)
-    a = seen.get('args')
-    if not a or len(a) != 3 or not isinstance(a[0], (K, RegexV)) or \
-            not isinstance(a[1], K) or a[2] != vs:
-        rep.undecided('R17.1', 'convert_version_to_tuple:suffix',
-                      'suffix stripping is not a single re.sub(constant, '
-                      'constant, version_str)')
-        return
-    pattern = a[0].v if isinstance(a[0], K) else a[0].pattern
-    flags = 0 if isinstance(a[0], K) else a[0].flags
-    repl = a[1].v
-    samples = ['1.2.3', '1.2.3a1', '1.0rc2', '1.0beta12', '2.0alpha1',
-               '1.0b3', '1.0.dev1', '1.2a', '1a1.2', '7rc1', '1.0c1',
-               '1.0rc', '10.20.30', '1.0RC1', '1.0post1']
-
-    def ref(s):
-        return re.sub(r'(\d+)(a|alpha|b|beta|rc)\d+$', r'\1', s)
-    bad = None
+        interp.pure_calls.update({'re.sub', 're.Pattern.sub'})
+        interp.call_raises['int'] = ['ValueError']
+    old = world.sym_iter_max
+    world.sym_iter_max = 5
     try:
-        rx = re.compile(pattern, flags)
-        for s in samples:
-            got = rx.sub(repl, s)
-            if got != ref(s):
-                bad = (s, got, ref(s))
-                break
-            rep.case({'version': s, 'stripped': got}, ('suffix', s, got))
-    except re.error as e:
-        bad = ('<compile>', str(e), '')
-    rep.check('R17.1', 'convert_version_to_tuple:suffix', bad is None,
-              'suffix regex %r -> %r %s' % (
-                  pattern, repl, 'strips exactly (a|alpha|b|beta|rc)<digits> '
-                  'after digits at the end on %d samples' % len(samples)
-                  if bad is None else 'maps %r to %r, required %r' % bad))
-    tree = R.parse(pattern, flags)
-    g2 = R.find_group(tree, 2)
-    if g2 is not None:
+        outcomes, _i = extract(world, thunk, setup=setup)
+    finally:
+        world.sym_iter_max = old
+    samples = ('1.2.3', '1.2.3a1', '1.0rc2', '1.0beta12', '2.0alpha1',
+               '1.0b3', '1.0.dev1', '1.2a', '1a1.2', '7rc1', '1.0c1',
+               '1.0rc', '10.20.30', '1.0RC1', '1.0post1', '6.7rc1.0',
+               '5a.6b', '1', '0.0.1', '1..2', '', '1.2.', 'a', '999.999',
+               '1.2.3.4', '3b2', '1.0alpha', '2.0beta1')
+
+    def oracle(v):
+        s_ = re.sub(r'(\d+)(a|alpha|b|beta|rc)\d+$', r'\1', v['version_str'])
         try:
-            lang = R.language(R.group_body(g2), flags)
-            rep.check('R17.1', 'convert_version_to_tuple:suffix-words',
-                      lang == SUFFIXES, 'pre-release markers %s (required '
-                      '%s)' % (sorted(lang), sorted(SUFFIXES)))
-        except AnalysisError as e:
-            rep.info('R17.1', 'convert_version_to_tuple:suffix-words',
-                     str(e))
-    # components: int() of every '.'-separated part, in order
-    for o in outcomes:
-        if o.kind != 'return':
-            continue
-        n = [b for t, b in o.assumptions if isinstance(t, T) and
-             t.op == 'len']
-        items = o.value.items if isinstance(o.value, (TupleV, ListV)) else (
-            list(o.value.v) if isinstance(o.value, K) else None)
-        ok = items is not None
-        if ok:
-            for i, it in enumerate(items):
-                ok = ok and isinstance(it, T) and it.op == 'call' and \
-                    it.args[0] == 'int' and len(it.args) == 2 and \
-                    isinstance(it.args[1], T) and it.args[1].op == 'elem' \
-                    and it.args[1].args[1] == K(i) and \
-                    _is_split_of_sub(it.args[1].args[0])
-        rep.check('R17.1', 'convert_version_to_tuple:components[%s]' % n,
-                  ok, 'result is tuple(int(part)) over the dot-separated '
-                  'parts in order; found %s' % show(o.value))
+            return ('return', tuple(int(p) for p in s_.split('.')))
+        except ValueError:
+            return ('raise', 'ValueError')
+
+    def sub_hook(v, val):
+        if isinstance(v, T) and v.op == 'call' and v.args[0] in (
+                're.sub', 're.Pattern.sub'):
+            from ..core.termeval import ev
+            rx = v.args[1]
+            repl = ev(v.args[2], val, [sub_hook])
+            subj = ev(v.args[3], val, [sub_hook])
+            if isinstance(rx, T) and rx.op == 'regex':
+                return re.compile(rx.args[0], rx.args[1]).sub(repl, subj)
+            return re.sub(ev(rx, val, [sub_hook]), repl, subj)
+        return NotImplemented
+    grid_compare(rep, 'R17.1', 'convert_version_to_tuple',
+                 'version strings with and without pre-release suffixes',
+                 outcomes, {vs: samples}, oracle, hooks=[sub_hook],
+                 value_eq=lambda g, w: tuple(g) == tuple(w),
+                 allow=('symbolic iteration bounded',))
 
 
 def _is_split_of_sub(t):
